@@ -208,7 +208,12 @@ impl BlockScope {
         let binders = candidates.iter().try_fold(
             im::HashMap::<VarName, DefId>::new(),
             |binders, candidate| {
-                candidate.binder().binders(&resolver.bitter).into_iter().try_fold(
+                // `binders` is hash-ordered by name; check the names one binder
+                // introduces in source order so the reported clash is stable.
+                let mut introduced =
+                    candidate.binder().binders(&resolver.bitter).into_iter().collect::<Vec<_>>();
+                introduced.sort_by_key(|(_, definition)| *definition);
+                introduced.into_iter().try_fold(
                     binders,
                     |binders, (name, definition)| -> Result<_> {
                         if let Some(previous) = binders.get(&name) {
